@@ -107,9 +107,9 @@ class _StoreBlock(Generic[_T]):
             token.store_handle = _StoreHandle(self, i)
 
 
-def _check_store_handle(token: _T) -> _StoreHandle[_T]:
-    if not token.store_handle:
-        raise ValueError('Token is not in a store.')
+def _check_store_handle(token: _T, store: Optional['TokenStore[_T]'] = None) -> _StoreHandle[_T]:
+    if not token.store_handle or (store is not None and token.store_handle.block.store is not store):
+        raise ValueError('Token is not in a store.' if not token.store_handle else 'Token is in another store.')
     return token.store_handle
 
 
@@ -258,12 +258,12 @@ class TokenStore(Generic[_T]):
         if ref is None:
             start = (0, 0)
         else:
-            start_handle = _check_store_handle(ref)
+            start_handle = _check_store_handle(ref, self)
             start = (start_handle.block.index, start_handle.index)
         if del_end is None:
             end = start
         else:
-            end_handle = _check_store_handle(del_end)
+            end_handle = _check_store_handle(del_end, self)
             end = (end_handle.block.index, end_handle.index + 1)
         self._splice(tokens, start, end)
 
@@ -271,7 +271,7 @@ class TokenStore(Generic[_T]):
         if ref is None:
             start = (0, 0)
         else:
-            start_handle = _check_store_handle(ref)
+            start_handle = _check_store_handle(ref, self)
             start = (start_handle.block.index, start_handle.index + 1)
         self._splice(tokens, start, start)
 
@@ -279,7 +279,7 @@ class TokenStore(Generic[_T]):
         self.splice(tokens, ref)
 
     def update(self, token: _T, raw_text: str, size: Position) -> None:
-        handle = _check_store_handle(token)
+        handle = _check_store_handle(token, self)
         handle.block.size.line += size.line - token.size.line
         if handle.index < handle.block.last_newline_index:
             return
@@ -309,8 +309,8 @@ class TokenStore(Generic[_T]):
         self.splice([], start, end or start)
 
     def iter(self, start: _T, end: _T) -> Iterator[_T]:
-        start_handle = _check_store_handle(start)
-        end_handle = _check_store_handle(end)
+        start_handle = _check_store_handle(start, self)
+        end_handle = _check_store_handle(end, self)
         if start_handle.block is end_handle.block:
             yield from start_handle.block.tokens[start_handle.index:end_handle.index+1]
         else:
@@ -320,14 +320,14 @@ class TokenStore(Generic[_T]):
             yield from end_handle.block.tokens[:end_handle.index+1]
 
     def get_index(self, token: _T) -> int:
-        handle = _check_store_handle(token)
+        handle = _check_store_handle(token, self)
         index = handle.index
         for i in range(handle.block.index):
             index += len(self._blocks[i].tokens)
         return index
 
     def get_position(self, token: _T) -> Position:
-        handle = _check_store_handle(token)
+        handle = _check_store_handle(token, self)
         pos = Position()
         for i in range(handle.block.index):
             pos += self._blocks[i].size
@@ -336,7 +336,7 @@ class TokenStore(Generic[_T]):
         return pos
 
     def get_prev(self, token: _T) -> Optional[_T]:
-        handle = _check_store_handle(token)
+        handle = _check_store_handle(token, self)
         if handle.index:
             return handle.block.tokens[handle.index - 1]
         if handle.block.index and self._blocks[handle.block.index - 1].tokens:
@@ -344,7 +344,7 @@ class TokenStore(Generic[_T]):
         return None
 
     def get_next(self, token: _T) -> Optional[_T]:
-        handle = _check_store_handle(token)
+        handle = _check_store_handle(token, self)
         if handle.index + 1 < len(handle.block.tokens):
             return handle.block.tokens[handle.index + 1]
         if handle.block.index + 1 < len(self._blocks):
